@@ -31,4 +31,15 @@ def reduceRows {α β : Type} (red : List α → β) (ident : Option β) (pad0 :
   | none => res
   | some e => res.map (fun r => (r.zip lens).map (fun p => if p.2 = 0 then e else p.1))
 
+/-- what `ufunc.reduceat` computes for one non-empty segment: a left fold from the segment's FIRST cell (the identity is
+not involved) -/
+def seg1 {α : Type} (op : α → α → α) (e : α) : List α → α
+  | [] => e
+  | x :: xs => xs.foldl op x
+
+/-- `_reduce` for a ufunc with identity `e` after the repair of F05h: segment folds by `reduceat`, empty rows set to `e`,
+then `ufunc(e, result)` for every row -/
+def reduceRowsFold {α : Type} (op : α → α → α) (e : α) (a : RA α) : Option (List α) :=
+  (reduceRows (seg1 op e) (some e) e a).map (List.map (op e))
+
 end Model
